@@ -1,19 +1,22 @@
 """C38 -- Writer renamings are valid, injective and invertible.
 
-T1  spec/RenamerImpl.tla models the naming mechanisms as written (PDDL: _get_pddl_name /
+T1  spec/RenamerImpl.tla models the naming mechanisms as written in the pinned tree (PDDL: _get_pddl_name /
     _get_mangled_name with the module-level keyword set as a variable; ANML: the pre-pass and
     _get_anml_name) over a universe of adversarial names and the REAL keyword sets; TLC checks that the
     repaired design (per-writer keyword copy, anchored ANML regex) satisfies every clause of
-    Renamer!Failures, and looks for counterexamples of the as-written design.
-T2  TLC (RenamerEnum) emits every problem skeleton of that universe; each is built as a real problem and
-    written by PDDLWriter / ANMLWriter in a fresh process, alone and after a writer for a temporal problem.
+    Renamer!Failures, and looks for counterexamples of the as-written design (recorded in the evidence;
+    the verdict on the real code comes from T2/T3).
+T2  TLC (RenamerEnum) emits every problem skeleton of the universes; each is built as a real problem and
+    written by PDDLWriter / ANMLWriter on first use, and by PDDLWriter after a writer for a temporal problem
+    with a trajectory constraint.
 T3  Seeded G2 problems (harness/gen.py, classical / temporal / trajectory constraints / metrics) whose
     identifiers are replaced through a seeded substitution by adversarial ones (case variants, keywords of
     both languages, symbols, unicode, leading digits, mangled forms, empty-ish names), written on first use
     and after another problem (2-step histories).
+First use = freshly reloaded writer modules; a sample is also run in new processes and compared.
 Every recorded naming (look-ups item -> name -> item, names harvested from the emitted text) is judged by
 TLC (RenamerJudge: Renamer's own actions and clauses).  Python builds, calls, tokenizes and projects; it
-decides nothing.
+decides nothing.  ./check C38 --selftest corrupts recorded fields; --replay FILE reruns a recorded input.
 """
 import copy
 import json
